@@ -144,6 +144,12 @@ class Escapes:
                         self.esc[f.qualname] = merged
                         changed = True
 
+    def of_block(self, f: FuncInfo, stmts) -> Esc:
+        """Escape set of a statement list inside f (after the fixed point has been computed)."""
+        self._cur = f
+        self._targets = {id(c): t for c, t in self.cg.calls_from(f)}
+        return self._block(stmts, Esc())
+
     def of(self, f: FuncInfo) -> Esc:
         return self.esc.get(f.qualname, Esc())
 
